@@ -154,7 +154,7 @@ func init() {
 	run.Register(run.Prop[PairCase]{
 		ID:    "C07",
 		Level: "exploration",
-		Rule: "case = ordered pair of persisted versions as in C06 (new derived from old by clone/reload + ops, unrelated histories over the same pool, the same version; either side possibly empty; different heights). Oracle, exactly as stated: with N_old/N_new the node sets reachable in the recording store, N_new \\ N_old subset of added subset of N_new, N_old \\ N_new subset of removed subset of N_old, every name at most once per direction, links are names; then a replica store seeded with N_old + an unrelated node + just the added nodes must contain every node of the new version and load it with the model's contents. " +
+		Rule: "case = ordered pair of persisted versions as in C06 (new derived from old by clone/reload + ops, unrelated histories over the same pool, the same version; either side possibly empty; different heights; each side opened through the shared cache, no cache or a cache of its own). Oracle, exactly as stated: with N_old/N_new the node sets reachable in the recording store, N_new \\ N_old subset of added subset of N_new, N_old \\ N_new subset of removed subset of N_old, every name at most once per direction, links are names; then a replica store seeded with N_old + an unrelated node + just the added nodes must contain every node of the new version and load it with the model's contents. " +
 			"Non-trivial = (shared nodes AND nodes only in old AND nodes only in new) OR (different heights with new-only nodes); distinct by case hash",
 		Assumptions: []string{"both versions persisted and complete (a root whose nodes are missing is C03's subject and aborts the case)"},
 		Gen:         genC07,
